@@ -167,8 +167,11 @@ def check_e2e(ck: Check, strs):
             r = cur.execute("select v, w from c08_t where id = %(i)s and v = %(v)s", shared).fetchall()
             r2 = cur.execute("select %(v)s as v, %(c)s as c, %(n)s as n, %(k)s as k", shared).fetchall()
             if r != [(s, other)] or r2 != [(s, "const'\\q", None, 7)] or shared != {"i": rid, "v": s, "c": "const'\\q", "n": None, "k": 7}:
-                report(f"insert then select of {s!r}/{other!r} with one reused dict of parameters returned {r} / {r2}; the dict is now {shared!r}",
-                       {"params": [rid, s, other], "observed": repr(r), "second": repr(r2), "dict_after": repr(shared)})
+                bad_shared = dict(shared)
+                shared.clear()
+                shared.update({"i": 0, "v": "", "c": "const'\\q", "n": None, "k": 7})     # start again from the caller's values (a changed dict must not feed on itself)
+                report(f"insert then select of {s!r}/{other!r} with one reused dict of parameters returned {r} / {r2}; the dict is now {str(bad_shared)[:300]}",
+                       {"params": [rid, s, other], "observed": repr(r)[:500], "second": repr(r2)[:500], "dict_after": repr(bad_shared)[:500]})
             r = cur.execute("select id from c08_t where v in (%s) and id = %s", ([s, "zz"], rid)).fetchall()
             if r != [(rid,)]:
                 report(f"IN list with {s!r} returned {r}", {"params": [[s, "zz"], rid], "observed": repr(r)})
